@@ -192,6 +192,7 @@ struct RunResult {
   uint64_t digest = 0;
   int nfail = 0;
   bool prefix_failed = false;
+  long events = 0;
 };
 
 static const char *tags_for(int k) {
@@ -205,6 +206,7 @@ static const char *tags_for(int k) {
 }
 
 static World g_w;
+static bool g_fault_seen = false;
 
 /// Replay hist on fresh objects, then (if op) execute op as the checked transition.  Enabled ops of the reached
 /// state are written to *enabled when requested (only meaningful without op).
@@ -229,9 +231,13 @@ static RunResult run_once(const std::vector<Op> &hist, const Op *op, int K, int 
     if (g_reloc >= 1) relocate_all(w);
     g_final = true;
     g_overlimit = false;
+    g_last_events = 0;
+    g_fault_seen = false;
     apply(w, *op);
     g_final = false;
-    observe(w, g_overlimit ? "C08" : tags_for(op->k));
+    g_fault_seen = op->f > 0 && W().exc && (W().exc_kind == 3 || W().exc_kind == 4);
+    r.events = g_last_events;
+    observe(w, op->f ? "C09" : g_overlimit ? "C08" : tags_for(op->k));
     r.key_after = key_of(w);
   }
   pool_destroy(w);
@@ -257,6 +263,7 @@ struct State {
   int parent;
   Op op;
   int depth;
+  int faults;  // injected faults on the stored history
 };
 
 int main(int argc, char **argv) {
@@ -268,6 +275,7 @@ int main(int argc, char **argv) {
   long maxstates = 50000000;
   Opts o;
   long faultk = 0;
+  int fault_bound = 0;  // 0 = no fault injection; n = at most n injected faults per history
   for (int a = 1; a < argc; ++a) {
     std::string s = argv[a];
     auto nxt = [&] { return a + 1 < argc ? std::string(argv[++a]) : std::string(); };
@@ -279,6 +287,7 @@ int main(int argc, char **argv) {
     else if (s == "--deadline") deadline = now_s() + std::atof(nxt().c_str());
     else if (s == "--maxstates") maxstates = std::atol(nxt().c_str());
     else if (s == "--faultk") faultk = std::atol(nxt().c_str());
+    else if (s == "--fault") fault_bound = std::atoi(nxt().c_str());
     else if (s == "--few-ranges") o.ranges_all = false;
     else if (s == "--no-menu") o.menu = false;
     else if (s == "--no-alias") o.alias = false;
@@ -320,7 +329,6 @@ int main(int argc, char **argv) {
     if (h.empty()) return 2;
     Op last = h.back();
     h.pop_back();
-    g_fault_k = faultk;
     RunResult r = run_once(h, &last, K, L, nullptr, o);
     std::printf("instantiation: %s N=%d elem=%s st=%zu alloc=%s\n", kFlavourName, N, E::name(), sizeof(ST), kAllocName);
     std::printf("history: %s\nop: %s\nkey_before: %s\nkey_after: %s\ndigest: %llx\n", hist_str(h).c_str(), op_str(last).c_str(),
@@ -351,10 +359,10 @@ int main(int argc, char **argv) {
     std::vector<Op> none;
     RunResult r0 = run_once(none, nullptr, K, L, nullptr, o);
     seen[r0.key_before] = 0;
-    states.push_back(State{-1, Op(), 0});
+    states.push_back(State{-1, Op(), 0, 0});
     keys.push_back(r0.key_before);
   }
-  long transitions = 0, viol_total = 0;
+  long transitions = 0, viol_total = 0, fault_transitions = 0, max_events = 0;
   std::set<uint64_t> digests;
   std::map<std::string, long> per_kind;
   struct VRec {
@@ -407,9 +415,43 @@ int main(int argc, char **argv) {
       if (it == seen.end()) {
         int id = (int)states.size();
         seen.emplace(r.key_after, id);
-        states.push_back(State{(int)cur, op, states[cur].depth + 1});
+        states.push_back(State{(int)cur, op, states[cur].depth + 1, states[cur].faults});
         keys.push_back(r.key_after);
         maxdepth = std::max(maxdepth, states[cur].depth + 1);
+      }
+      // ---- fault enumeration: the k-th throwing event of this operation throws, for every k --------------------
+      if (fault_bound > 0 && states[cur].faults < fault_bound) {
+        const long E = r.events;
+        max_events = std::max(max_events, E);
+        for (long k = 1; k <= E; ++k) {
+          Op fop = op;
+          fop.f = (int)k;
+          crumb(h, &fop, k);
+          RunResult rf = run_once(h, &fop, K, L, nullptr, o);
+          ++transitions;
+          ++fault_transitions;
+          digests.insert(rf.digest);
+          if (!g_fault_seen) {
+            nondet = "fault " + std::to_string(k) + " of " + std::to_string(E) + " did not fire in " + op_str(fop) + " after " + hist_str(h);
+            break;
+          }
+          if (rf.nfail) {
+            ++viol_total;
+            std::string sig = std::string(kind_name(op.k)) + "|fault|" + vf::L().fails[0].tags + "|" + vf::L().fails[0].msg;
+            std::string norm;
+            for (char c : sig) norm += (c >= '0' && c <= '9') ? '#' : c;
+            if (viol_sigs.insert(norm).second && viols.size() < 200)
+              viols.push_back(VRec{vf::L().fails[0].tags, vf::L().fails[0].msg, hist_str(h), op_str(fop), keys[cur]});
+            continue;
+          }
+          if (seen.find(rf.key_after) == seen.end()) {
+            seen.emplace(rf.key_after, (int)states.size());
+            states.push_back(State{(int)cur, fop, states[cur].depth + 1, states[cur].faults + 1});
+            keys.push_back(rf.key_after);
+            maxdepth = std::max(maxdepth, states[cur].depth + 1);
+          }
+        }
+        if (!nondet.empty()) break;
       }
     }
     if (!nondet.empty()) break;
@@ -424,8 +466,8 @@ int main(int argc, char **argv) {
               0
 #endif
   );
-  std::printf("\"K\":%d,\"L\":%d,\"reloc\":%d,\"states\":%zu,\"transitions\":%ld,\"max_depth\":%d,\"distinct_outcomes\":%zu,\"complete\":%s,\"violating_transitions\":%ld,\n",
-              K, L, g_reloc, states.size(), transitions, maxdepth, digests.size(), complete ? "true" : "false", viol_total);
+  std::printf("\"K\":%d,\"L\":%d,\"reloc\":%d,\"states\":%zu,\"transitions\":%ld,\"max_depth\":%d,\"distinct_outcomes\":%zu,\"complete\":%s,\"violating_transitions\":%ld,\"fault_bound\":%d,\"fault_transitions\":%ld,\"max_fault_points_per_op\":%ld,\n",
+              K, L, g_reloc, states.size(), transitions, maxdepth, digests.size(), complete ? "true" : "false", viol_total, fault_bound, fault_transitions, max_events);
   std::printf("\"claims_reloc\":%s,\"static_fail\":\"%s\",\"nondeterminism\":\"%s\",\n", claims ? "true" : "false", jesc(static_fail).c_str(), jesc(nondet).c_str());
   std::printf("\"per_kind\":{");
   bool first = true;
